@@ -360,7 +360,7 @@ def _rx_show(x):
     return rx_show(x)
 
 
-def string_policy(rng, uid, tags=('<', '>'), max_segs=2, wrapped=True):
+def string_policy(rng, uid, tags=('<', '>'), max_segs=2, wrapped=True, unbalanced=True):
     table = []
     samples = {}
     fields = {}
@@ -372,7 +372,7 @@ def string_policy(rng, uid, tags=('<', '>'), max_segs=2, wrapped=True):
                 w = rng.choice(['a', 'get', 'Max', ''])
                 e, t, s = tags[0] + w + tags[1], [[w, rx_of_literal(w)]], w
             else:
-                e, t, s = str_element(rng, tags, max_segs)
+                e, t, s = str_element(rng, tags, max_segs, unbalanced)
             els.append(['s', e])
             table += t
             stripped = e[1:-1] if (e and e[0] == tags[0] and e[-1] == tags[1]) else e
@@ -481,7 +481,8 @@ def rule_policy(rng, uid, raising=True):
     return p, [], samples, ctx_samples
 
 
-def scenario(rng, ck, n_policies=None, tags=('<', '>'), max_segs=2, illtyped=0.03, raising=True, easy=None):
+def scenario(rng, ck, n_policies=None, tags=('<', '>'), max_segs=2, illtyped=0.03, raising=True, easy=None,
+             unbalanced=True):
     """-> dict(checker, policies, inquiry, rxtable) with roughly half of (policy, inquiry) pairs matching"""
     n = n_policies if n_policies is not None else rng.choice([0, 1, 2, 2, 3, 3, 4, 5, 6])
     if easy is None:
@@ -495,7 +496,7 @@ def scenario(rng, ck, n_policies=None, tags=('<', '>'), max_segs=2, illtyped=0.0
         if rule_kind:
             p, t, s, c = rule_policy(rng, uid, raising)
         else:
-            p, t, s, c = string_policy(rng, uid, tags, max_segs)
+            p, t, s, c = string_policy(rng, uid, tags, max_segs, unbalanced=unbalanced)
         if easy:
             if rng.random() < 0.8:
                 p['effect'] = 'allow'
